@@ -370,13 +370,13 @@ def x_p2p_loop():
     if k < 0:
         raise Broken("Run: dispatch switch not found after sub.Next")
     head = loop[:k]
-    # ---- undecodable envelope: continue
-    u = re.match(r'\s*var msg gossipv1\.GossipMessage\s*\n\s*err = proto\.Unmarshal\(envelope\.Data, &msg\)\s*\n\s*if err != nil \{((?:[^{}]|\n)*?)\}', head)
+    # ---- undecodable envelope: continue (in front of the switch; before or after the loopback test, both skip the envelope)
+    u = re.search(r'var msg gossipv1\.GossipMessage\s*\n\s*err = proto\.Unmarshal\(envelope\.Data, &msg\)\s*\n\s*if err != nil \{((?:[^{}]|\n)*?)\}', head)
     if not u or not re.search(r'\bcontinue\s*$', u.group(1).rstrip()):
-        raise Broken("Run: `var msg; err = proto.Unmarshal(envelope.Data, &msg); if err != nil { ..; continue }` is not the first thing done with an envelope")
+        raise Broken("Run: `var msg; err = proto.Unmarshal(envelope.Data, &msg); if err != nil { ..; continue }` not found between sub.Next and the switch")
     if re.search(r'<-|gst\.|processSigned', u.group(1)):
         raise Broken("Run: the undecodable-envelope branch does more than log / count")
-    rest = head[u.end():]
+    rest = head[:u.start()] + head[u.end():]
     info["invalid"] = "continue"
     # ---- loopback test between decoding and the switch
     lb = re.search(r'if (?:envelope\.GetFrom\(\) == h\.ID\(\)|h\.ID\(\) == envelope\.GetFrom\(\)) \{((?:[^{}]|\n)*?)\}', rest)
